@@ -127,17 +127,11 @@ func c06IDs(c *Ctx) {
 				if !ok || !strings.HasSuffix(guard.CalleeName(&call.Call), "bigEndian).PutUint16") {
 					return
 				}
-				sl, isSl := guard.Strip(call.Call.Args[1]).(*ssa.Slice)
-				if !isSl {
+				base, offLin := absSliceStart(cx, call.Call.Args[1])
+				if cx.LenOf(base).String() != "10" {
 					return
 				}
-				if cx.LenOf(sl.X).String() != "10" {
-					return
-				}
-				off := "0"
-				if sl.Low != nil {
-					off = cx.Lin(sl.Low).String()
-				}
+				off := offLin.String()
 				arg := guard.Strip(call.Call.Args[len(call.Call.Args)-1])
 				for i, prm := range f.Params {
 					if arg == ssa.Value(prm) {
